@@ -56,6 +56,7 @@ class ReadOnlyHistories(Contract):
     variant = "read-only-histories"
     symbolic = False
     has_native = True
+    native_shards = 4
     props = ("C10",)
     bounded_scope = ("a 5-entity project opened with mode 'r'; sequences of 3-8 calls over getters, setters (on entities and on entity types, the root's included), creations, removals (through the workspace and through the parent, also repeated with a handle kept from an earlier attempt or session), copies, property-group edits, close/re-open "
                      "(with and without an explicit mode) and fetch_active_workspace: after every call the file's sha256 is unchanged, an open handle reports mode 'r', and every "
@@ -292,6 +293,7 @@ class CloseHistories(Contract):
     variant = "close-histories"
     symbolic = False
     has_native = True
+    native_shards = 4
     props = ("C11",)
     bounded_scope = ("a project with plain objects and a drillhole group; 2-6 operations (create, add data, rename, edit values, remove, drillhole data, renames and data-flag edits whose persistence "
                      "is deferred to close, a redundant open(), fetch_active_workspace in either mode) followed by one of {explicit close, leaving the with-block, an exception "
